@@ -48,6 +48,12 @@ PAIRS = [("Xx", "Xx"), ("Xx", "Ss"), ("Ss", "Xx"), ("Ss", "Ss"), ("Hh", "Hh"), (
          ("XAaDs", "Hh"), ("X", "S"), ("S", "X"), ("XA", "S"), ("SU", "SU")]
 
 
+# (scripts, schedule prefix): 6 steps = lockExclusive done, 9 = startAppending done, 4 = lockShared done, 5 = lockHeaders done
+PREFIXED = [(("XAax", "Ss"), "0" * 9), (("XAaDs", "Ss"), "0" * 9), (("XAax", "Hh"), "0" * 9), (("XADs", "Ss"), "0" * 9),
+            (("XAx", "SUx"), "0" * 9), (("XDs", "Ss"), "0" * 6), (("XDs", "Xx"), "0" * 6), (("SUx", "Ss"), "0" * 4),
+            (("SUx", "Xx"), "0" * 4), (("SUx", "SUx"), "00001111"), (("Hh", "Hh"), "0" * 5), (("Ss", "Xx"), "0" * 4)]
+
+
 def rand_script(rng):
     k = rng.random()
     if k < 0.75:
@@ -100,12 +106,16 @@ def gen_cases(rng, n):
     every schedule prefix of length L over two threads for each script pair (after the prefix: round-robin)."""
     quick = n <= 50000
     cases = []
-    L = 9 if quick else 13
+    L = 10 if quick else 13
     cases += exhaustive(PAIRS, L)
     # three threads, exhaustive short prefixes
     for scr in [("Xx", "Ss", "Ss"), ("Xx", "Xx", "Ss"), ("XAax", "Ss", "Hh"), ("Hh", "Hh", "Hh"), ("SUx", "SUx", "Xx")]:
         for bits in itertools.product("012", repeat=6 if quick else 8):
             cases.append(mk(list(scr), "".join(bits)))
+    # a fixed prefix brings thread 0 to a holding state first; then every continuation of length L
+    for scr, prefix in PREFIXED:
+        for bits in itertools.product("01", repeat=L):
+            cases.append(mk(list(scr), prefix + "".join(bits)))
     for _ in range(n):
         nt = rng.choice([1, 2, 2, 2, 2, 3, 3, 3, 3, 4])
         scripts = [rand_script(rng) for _ in range(nt)]
@@ -246,8 +256,8 @@ def mutate(rng, case):
 
 def run(res, tier):
     res.rule = ("1..4 protocol-following client threads running scripts over the 10 public ReadWriteLock methods under explicit "
-                "schedules (one entry = one atomic operation or one use step): every schedule prefix of length 9 (13 thorough) "
-                "for 26 two-thread script pairs and of length 6 (8) for 5 three-thread triples, then random burst/uniform/"
+                "schedules (one entry = one atomic operation or one use step): every schedule prefix of length 10 (13 thorough) "
+                "for 26 two-thread script pairs (and after 12 fixed prefixes that first bring thread 0 to a holding state) and of length 6 (8) for 5 three-thread triples, then random burst/uniform/"
                 "run-ahead schedules over random phrase scripts; past the schedule: round-robin. A case is non-trivial when "
                 "some operation of one thread was in progress while another thread completed a step (context switch inside an operation)")
     res.trusted.append("harness/sched_atomic.h replaces std::atomic/std::atomic_flag by a cooperative-scheduler version at compile "
